@@ -882,15 +882,41 @@ def array_split(a, n, **k):
 
 
 def nonzero(a):
+    """ASSUMED (2-d): index arrays (i1, i2) of common length m that enumerate exactly the non-zero (True) cells, each once."""
     if not _sym(a):
         return _np.nonzero(a)
-    raise Unsupported("np.nonzero on symbolic data")
+    a = _arr(a)
+    if a.ndim != 2:
+        raise Unsupported("np.nonzero of rank != 2")
+    ctx = Ctx.cur
+    ae = a._elem if a.kind == "b" else (lambda i, j, _e=a._elem: _e(i, j) != 0)
+    n1, n2 = dim_term(a.shape[0]), dim_term(a.shape[1])
+    m = ctx.fresh_int("nnz", lo=0, size=True)
+    I = z3.IntSort()
+    p1, p2 = ctx.fresh_fn("nz_row", I, I), ctx.fresh_fn("nz_col", I, I)
+    rank = ctx.fresh_fn("nz_rank", I, I, I)
+    t, i, j = bv("t"), bv("i"), bv("j")
+    ctx.assume(forall([t], z3.Implies(z3.And(t >= 0, t < m.t), z3.And(p1(t) >= 0, p1(t) < n1, p2(t) >= 0, p2(t) < n2, ae(p1(t), p2(t)),
+                                                                      rank(p1(t), p2(t)) == t)), patterns=[p1(t)]), "numpy:nonzero")
+    ctx.assume(forall([i, j], z3.Implies(z3.And(i >= 0, i < n1, j >= 0, j < n2, ae(i, j)),
+                                         z3.And(rank(i, j) >= 0, rank(i, j) < m.t, p1(rank(i, j)) == i, p2(rank(i, j)) == j)),
+                      patterns=[rank(i, j)]), "numpy:nonzero")
+    ctx.trust("numpy:nonzero (enumerates exactly the non-zero cells, each once)")
+    r1 = SArr((m,), lambda q: p1(q), "i")
+    r2 = SArr((m,), lambda q: p2(q), "i")
+    for r, n in ((r1, a.shape[0]), (r2, a.shape[1])):
+        r.meta["values_in"] = (0, n)
+        r.meta["nonzero"] = (a, m, p1, p2, rank)
+    return r1, r2
 
 
 def moveaxis(a, s, d):
     if not _sym(a):
         return _np.moveaxis(a, s, d)
-    raise Unsupported("np.moveaxis on symbolic data")
+    a = _arr(a)
+    if a.ndim == 2 and s == 0 and d in (-1, 1):
+        return a.T
+    raise Unsupported("np.moveaxis other than (2-d, 0, -1)")
 
 
 def outer(a, b):
